@@ -390,7 +390,14 @@ class Canon:
             lines.append("(assert (=> (<= %s 0) (<= %s 0)))" % (ys, al))
             lines.append("(assert (=> (>= %s 0) (and (<= (- %s) %s) (<= %s %s))))" % (xs, HPIH, al, al, HPIH))
             lines.append("(assert (=> (and (= %s 0) (> %s 0)) (= %s 0)))" % (ys, xs, al))
-            self.axioms.add('atan2 range: |a|<=pi, sign(a)=sign(y), |a|<=pi/2 when x>=0 (rational upper bound 3.1415926536 > pi)')
+            lines.append("(assert (=> (not (= %s 0)) (not (= %s 0))))" % (ys, al))
+            # sin a <= a <= tan a on [0, pi/2) (and mirrored): with r sin a = y, r cos a = x
+            rs = self.rat_smt(r)
+            lines.append("(assert (=> (and (>= %s 0) (>= %s 0)) (>= (* %s %s) %s)))" % (ys, xs, al, rs, ys))
+            lines.append("(assert (=> (and (>= %s 0) (> %s 0)) (<= (* %s %s) %s)))" % (ys, xs, al, xs, ys))
+            lines.append("(assert (=> (and (<= %s 0) (>= %s 0)) (<= (* %s %s) %s)))" % (ys, xs, al, rs, ys))
+            lines.append("(assert (=> (and (<= %s 0) (> %s 0)) (>= (* %s %s) %s)))" % (ys, xs, al, xs, ys))
+            self.axioms.add('atan2 range: |a|<=pi, sign(a)=sign(y), |a|<=pi/2 when x>=0 (rational upper bound 3.1415926536 > pi); sin a <= a <= tan a on [0,pi/2) and mirrored')
         return lines
 
     def steps(self, ids=None):
